@@ -240,6 +240,7 @@ func (s *recCluster) RecoverLocal(ctx context.Context, in cid.Cid, out *api.PinI
 	return err
 }
 func (s *recCluster) Pin(ctx context.Context, in *api.Pin, out *api.Pin) error {
+	lastPinCid = in.Cid
 	err := s.r.rec("Cluster.Pin", "pin", pinTok(in, s.r.window()), storedMode(in))
 	*out = *in
 	s.r.setOut(*out)
@@ -301,7 +302,7 @@ func (s *recCluster) Alerts(ctx context.Context, in struct{}, out *[]api.Alert) 
 	return err
 }
 func (s *recCluster) BlockAllocate(ctx context.Context, in *api.Pin, out *[]peer.ID) error {
-	err := s.r.rec("Cluster.BlockAllocate", "pin", pinTok(in, s.r.window()), storedMode(in))
+	err := s.r.rec("Cluster.BlockAllocate", "opts", optsTok(&in.PinOptions, s.r.window()))
 	*out = []peer.ID{""}
 	s.r.setOut(*out)
 	return err
